@@ -6,6 +6,7 @@
     implementation by the correspondence checks of tools/props/C17.py
     (pol_update, field3d, intensities, PolarizationState, create_polarization). *)
 From Coq Require Import ZArith List String.
+From Coq Require Import PrimFloat.
 From OV Require Import Ops Cx.
 Import ListNotations.
 Local Open Scope string_scope.
@@ -55,12 +56,15 @@ Section Model.
     let '(s, p) := field_basis k in
     let '(a, b) := jones_vec st in cv_lin a s b p.
 
-  (** s-vector of [update]: k0 x k1, or k0 x xhat when that vanishes, normalised *)
+  (** s-vector of [update]: k0 x k1 normalised; when |k0 x k1| < 1e-8 (k0, k1 (anti)parallel up to
+      rounding, e.g. an index-matched surface) k0 x xhat is used instead.  NaN compares false. *)
+  Definition par_tol : T := lit 1 (-8) 0x1.5798ee2308c3ap-27%float.
   Definition s_vector (k0 k1 : V3 O) : V3 O :=
     let s0 := cross k0 k1 in
     let mag0 := norm3 s0 in
-    let s1 := if eqb_ mag0 (ofZ 0) then cross k0 xhat else s0 in
-    let mag := if eqb_ mag0 (ofZ 0) then norm3 s1 else mag0 in
+    let par := ltb_ mag0 par_tol in
+    let s1 := if par then cross k0 xhat else s0 in
+    let mag := if par then norm3 s1 else mag0 in
     vdiv s1 mag.
   Definition rows3 (a b c : V3 O) : M3 O :=
     let '(ax, ay, az) := a in let '(bx, by_, bz) := b in let '(cx, cy, cz) := c in
